@@ -178,6 +178,10 @@ class Interp:
             return symcoll.SymSet(name, rep.split(':')[1] if ':' in rep else 'key')
         if rep == 'symlist' and isinstance(v, VList) and not v.items:
             return symcoll.SymList(name)
+        if rep == 'symkeylist' and isinstance(v, VSeq) and v.pred is None:
+            return symcoll.SymKeyList(name, v.src_len)
+        if rep == 'symmap' and isinstance(v, VDict) and not v.d:
+            return symcoll.SymMap(name)
         if rep == 'list_of_symlist' and isinstance(v, VList) and all(isinstance(x, VList) and not x.items for x in v.items):
             return VList([symcoll.SymList(f'{name}{j}') for j in range(len(v.items))])
         return v
@@ -683,7 +687,7 @@ class Interp:
                 d = VObj(object, tag='fieldsdict')
                 d.fields = {'of': v}
                 return d
-            if v.tag in ('recorder', 'symlist', 'symdict', 'symset', 'bucket'):
+            if v.tag in ('recorder', 'symlist', 'symdict', 'symset', 'bucket', 'symkeylist', 'symmap'):
                 return VFunc('builtin', name=f'method:{attr}', obj=None, self_=v)
             return self.class_attr(v, v.pycls, attr)
         if isinstance(v, VKind):
@@ -901,7 +905,7 @@ class Interp:
             for p_, par in inspect.signature(fn).parameters.items():
                 if p_ == 'result':
                     kwargs[p_] = v
-                elif p_.startswith('any_int_'):
+                elif p_.startswith('any_int_') and p_ not in getattr(self, 'generics', ()):
                     # a generic integer: the assertion is proved for an arbitrary value (universal
                     # generalisation; unlike a quantifier it may feed sequence terms and reductions)
                     from .values import fresh_int as _fi, VInt as _VI
@@ -1055,6 +1059,12 @@ class Interp:
         env.pyfunc = f.pyfunc
         env.top_level = force_body
         self.bind(f, env, args, kwargs)
+        if force_body:
+            # rigid generic constants of the contract under verification: arbitrary but fixed for the
+            # whole activation (visible to loop invariants of nested functions and to the exit assertion)
+            for gname in getattr(self, 'generics', ()):
+                from .values import fresh_int as _fi2
+                env.vars[gname] = VInt(_fi2(gname))
         if self.call_depth > 40:
             raise Unsupported('call depth')
         self.call_depth += 1
